@@ -184,6 +184,21 @@ def run(ctx):
                 las = lasio.read(text, ignore_data=bool(inst["flag"]))
                 lens = set(len(c.data) for c in las.curves)
                 obs = lens.pop() if len(lens) == 1 and [c.mnemonic for c in las.curves] == ["DEPT", "GR"] else "OTHER:%r" % ([c.mnemonic for c in las.curves],)
+            elif k == "readpol":
+                rowtext = {"plain": "1.5 2.5 3.5", "neg": "1.5 -2.5 3.5", "runon": "1.5 2.5-3.5", "runon3": "1.5-2.5-3.5", "cdec": "1,5 2,5 3,5",
+                           "dots": "1.5 1.2.3"}
+                rowvals = {"plain": [1.5, 2.5, 3.5], "neg": [1.5, -2.5, 3.5], "runon": [1.5, 2.5, -3.5], "runon3": [1.5, -2.5, -3.5],
+                           "cdec": [1.5, 2.5, 3.5], "dots": [1.5, None, None]}
+                pol = {"default": "default", "hyphen": ["run-on(-)"], "dots": ["run-on(.)", "comma-decimal-mark"], "none": ()}[inst["policy"]]
+                text = "~V\nVERS. 2.0:\nWRAP. NO:\n~W\nNULL. -999.25:\n~C\nA.:\nB.:\nC.:\n~A\n" + "".join(rowtext[r] + "\n" for r in inst["rows"])
+                try:
+                    las = lasio.read(text, read_policy=pol, accept_regexp_sub_recommendations=bool(inst["accept"]),
+                                     engine=("numpy", "normal")[len(events) % 2])
+                    want = [[rowvals[r][c] for r in inst["rows"]] for c in range(3)]
+                    got = [[None if (isinstance(x, float) and x != x) else x for x in c.data.tolist()] for c in las.curves]
+                    obs = "numeric" if got == want and all(c.data.dtype.kind == "f" for c in las.curves) else "other"
+                except Exception:
+                    obs = "other"
             elif k == "dtypes":
                 spec = inst["spec"]
                 kinds = {"f": float, "i": int, "U": str}
